@@ -2,6 +2,7 @@ package renterx
 
 import (
 	"context"
+	"encoding/json"
 	"fmt"
 	"os"
 	"path/filepath"
@@ -108,6 +109,9 @@ func judge(c Case, o Outcome) (kind, desc string) {
 	return "", ""
 }
 
+// flaggedKeys collects the Key() of every case reported as a mismatch (hx caps the mismatch list).
+var flaggedKeys []string
+
 func runCases(t *testing.T, in replayIn, res *hx.Result, tw *hx.TraceWriter) {
 	e := newEnv(t)
 	sampled := map[string]bool{}
@@ -131,12 +135,21 @@ func runCases(t *testing.T, in replayIn, res *hx.Result, tw *hx.TraceWriter) {
 		}
 		eff := effective(c, o)
 		for _, f := range c.Faults {
-			if len(c.Faults) == 1 && c.Classes[f.String()] == "unbind" && !containsFault(eff, f) {
+			// (a client that returned an error without opening a stream never met the host: the
+			// fault is unseen because of the client, not because the catalogue entry is void)
+			if o.Dialed && len(c.Faults) == 1 && c.Classes[f.String()] == "unbind" && !containsFault(eff, f) {
 				res.Count("noop_unbind", 1)
 				res.Note("catalog entry without effect: %s %s", c.Key(), f)
 			}
 		}
 		res.Eval(c.Key())
+		if !o.Dialed {
+			if c.Unservable && o.Outcome == "err" {
+				res.Count("unservable_refused_locally", 1) // "in every other case the call returns an error"
+			} else {
+				res.Count("not_dialed", 1)
+			}
+		}
 		if o.Millis > float64(hx.EnvInt("VERIF_SLOW_MS", 3000)) {
 			res.Count("slow_cases", 1)
 			res.Note("slow case (%.0f ms): %s -> %s %s", o.Millis, c.Key(), o.Outcome, o.Err)
@@ -176,6 +189,7 @@ func runCases(t *testing.T, in replayIn, res *hx.Result, tw *hx.TraceWriter) {
 			res.Sample(map[string]any{"case": c.Key(), "must": must(c, eff), "outcome": o.Outcome, "bound": o.Bound, "err": o.Err, "detail": o.Detail, "delivered": o.Delivered})
 		}
 		if kind, desc := judge(c, o); kind != "" {
+			flaggedKeys = append(flaggedKeys, c.Key())
 			sig := fmt.Sprintf("renter:%s:%s:%s", c.RPC, faultSig(c.Faults), kind)
 			res.Mismatch(sig, fmt.Sprintf("%s v%d [%s]: %s (outcome=%s bound=%v hostErrs=%v)", c.RPC, c.Variant, faultSig(c.Faults), desc, o.Outcome, o.Bound, o.HostErrs),
 				map[string]any{"kind": "case", "case": c, "outcome": o})
@@ -225,6 +239,9 @@ func TestReplay(t *testing.T) {
 	defer tw.Close()
 	runCases(t, in, res, tw)
 	res.Traces = tw.N
+	if b, err := json.Marshal(flaggedKeys); err == nil {
+		os.WriteFile(filepath.Join(hx.Env("VERIF_WORK", os.TempDir()), hx.Env("VERIF_TRACE", "rentertrace.ndjson")+".flagged.json"), b, 0o644)
+	}
 }
 
 // TestReplayOne re-executes one recorded mismatch (./check C10 --replay file).
